@@ -22,13 +22,13 @@ func (pi propInfo) Explanation(rules []*Rule) string {
 
 var propTable = map[string]propInfo{
 	"C01": {"Acknowledged appends survive any crash",
-		"the durability discipline: write then fsync before a nil return of the segment writer's mutators, commit index published only after fsync, nothing fallible after the durability point, StoreLogs success implies tail.Append success, metadata commit before file creation, missing tail recreated, state published and files deleted only after the metadata commit, recovery sweep spares live segments, final batch CRC gates acceptance and rejection rolls back everything the scan set, no storage error dropped, recovery scan steps by whole aligned frames, directory fsync retried until it succeeds.",
+		"the durability discipline: write then fsync before a nil return of the segment writer's mutators, commit index published only after fsync, nothing fallible after the durability point, StoreLogs success implies tail.Append success, metadata commit before file creation, missing tail recreated, state published and files deleted only after the metadata commit, recovery sweep spares live segments, final batch CRC gates acceptance (recovery succeeds without a CRC decision only when no commit frame exists or entry frames follow the last one) and rejection rolls back everything the scan set, no storage error dropped, recovery scan steps by whole aligned frames, directory fsync retried until it succeeds.",
 		"that these mechanisms suffice: behaviour under every crash point x torn-write subset x history, recovery offset/CRC-range arithmetic, the file system's and bbolt's own crash behaviour."},
 	"C02": {"Recovery never fabricates, corrupts or half-applies log content",
-		"final-batch CRC decides and a mismatch rewinds or re-initialises; the rewind is complete (offsets and seal marker); entries become countable only after fsync; zero header = stop, unknown type = stop; 8-byte alignment and forward progress of the scan; fresh persisted segment IDs; header validated whenever a commit was accepted.",
+		"final-batch CRC decides (the only CRC-less acceptances: no commit frame, or entries follow the last commit) and a mismatch rewinds or re-initialises; every byte appended to the pending buffer is folded into the commit CRC; the rewind is complete (offsets and seal marker); entries become countable only after fsync; zero header = stop, unknown type = stop; 8-byte alignment and forward progress of the scan; fresh persisted segment IDs; header validated whenever a commit was accepted.",
 		"batch atomicity and content equality over all torn subsets and crash chains (stale bytes behind the tail, CRC range arithmetic, offset bookkeeping values): runtime byte-level facts."},
 	"C03": {"Recovery always restores a fully usable, writable WAL",
-		"a recovered tail that may already be sealed is never installed without asking Sealed() and completing the rotation; recovery rolls back the seal marker with the discarded batch; a missing tail file is recreated; the meta DB appears complete or not at all; Open ends with state stored, sweep done and the rotation goroutine started; the rotation hand-off cannot strand the next writer; metadata before file.",
+		"a recovered tail that may already be sealed is never installed without asking Sealed() and completing the rotation; recovery rolls back the seal marker with the discarded batch; a missing tail file is recreated; the meta DB appears complete or not at all and is rebuilt from scratch (leftovers of an interrupted initialisation removed first); tail recovery (adopting an existing file) happens on Open's path only; Open ends with state stored, sweep done and the rotation goroutine started; the rotation hand-off cannot strand the next writer; metadata before file.",
 		"that Open succeeds on every crash image (needs the images); durability of post-recovery effects beyond C01's discipline."},
 	"C04": {"Truncations are atomic and durable across crashes",
 		"the single commit point: one committed bolt write transaction per metadata commit; in-memory switch and file deletion strictly after it and only via finalizers; tail truncation force-seals under fsync before the replacement segment is named and persists the returned seal offset; fresh ID for the replacement; what leaves the list is exactly what the finalizer closes/deletes; the (min,max) classification for all orderings.",
@@ -37,7 +37,7 @@ var propTable = map[string]propInfo{
 		"DeleteRange's classification for all weak orderings of min,max,first,last (middle range => error with no effect; empty/disjoint => no-op); polarity of every bound comparison on the lookup path; non-contiguous appends refused before anything is appended; every lookup bounded by the snapshot's current first index, not by construction-time copies.",
 		"equality of GetLog/FirstIndex/LastIndex results with the model over operation sequences, geometry and reopen."},
 	"C06": {"Concurrent reads are linearizable against the single writer",
-		"race-freedom and publication discipline: atomic-only fields accessed only atomically; writer-side data only under writeMu; read paths touch only immutable, atomic or refcount-pinned data; every pin released exactly once; entries visible only once durable; state published after commit; old files closed/deleted only by finalizers on last release; the tail offset table indexed only at or below the committed index.",
+		"race-freedom and publication discipline: atomic-only fields accessed only atomically; writer-side data only under writeMu; read paths touch only immutable, atomic or refcount-pinned data; every pin released exactly once; entries visible only once durable; state published after commit; old files closed/deleted only by finalizers on last release; the tail offset table indexed only at or below the committed index, and loaded only after that index (the writer stores the two in the opposite order).",
 		"linearizability of returned values over interleavings; absence of data races in general (these rules cover the design's own invariants, they are not a race detector)."},
 	"C07": {"Real filesystem layer honours the durability contract the WAL assumes",
 		"every clause on every path: no nil from Append/ForceSeal before write then fsync; only the writer writes/syncs segment files; first fsync of a created file also fsyncs the directory and the new-flag is cleared only after that succeeded; Create is O_CREATE|O_EXCL with preallocation (extend=true) and returns the dir-syncing wrapper; Delete = unlink + directory fsync before reporting; meta DB: tmp, buckets, commit, close, rename, directory fsync, final name opened only when it exists or after that sequence; only fs and metadb touch os/bbolt; no storage error dropped.",
@@ -49,7 +49,7 @@ var propTable = map[string]propInfo{
 		"byte-exact agreement writer <-> reader <-> README-derived spec table for the file header, frame header, index frame, names and constants; padding/alignment for all payload lengths; the IndexStart persisted is the seal's.",
 		"byte-for-byte reproduction of whole files and golden-directory compatibility (needs files); the JSON encoding beyond field names."},
 	"C10": {"I/O errors never cost acknowledged data",
-		"a failed segment-writer mutator restores every field it touched before the durability point; no failure return after the durability point; in-memory state switches only after commit and post-commit step succeeded; failed batches never become visible; no storage error dropped; a failed rotation still releases the waiting writer.",
+		"a failed segment-writer mutator restores every field it touched before the durability point; no failure return after the durability point; in-memory state switches only after commit and post-commit step succeeded; failed batches never become visible; no storage error dropped; a failed rotation still releases the waiting writer; a failed file creation is never papered over by adopting an existing file.",
 		"the full 'applied in full or not at all after reopen' over fault sequences: runtime state."},
 	"C11": {"Damaged files yield errors, never panics, hangs or silent shortening",
 		"no allocation sized by file bytes without a bound; no index/slice by file-derived values without a bound (incl. the varint byte count); every scan loop advances by >= 8 aligned bytes; sealed segments are header-checked against metadata on Open; a failed Open closes the metadata store and the segments it opened; unknown frame types are errors.",
@@ -58,10 +58,10 @@ var propTable = map[string]propInfo{
 		"Encode and Decode handle the same six raft.Log fields in the same order with paired primitives; decoded slices are fresh copies; reserved codec IDs rejected and foreign codecs refused before anything is opened; a new segment records the configured codec's ID.",
 		"round-trip equality on boundary values (varint limits, time zones/monotonic readings): value-level."},
 	"C13": {"Disk space is reclaimed and segment identities are never reused",
-		"segment IDs come from a persisted always-incremented counter that is durable before the file exists; every segment dropped from the list is handed to a finalizer that closes and deletes it, run on last release; Open deletes exactly listed-on-disk minus listed-in-metadata; delete is durable (unlink + dir fsync).",
+		"segment IDs come from a persisted always-incremented counter that is durable before the file exists; every segment dropped from the list is handed to a finalizer that closes and deletes it, run on last release; Open deletes exactly listed-on-disk minus listed-in-metadata; delete is durable (unlink + dir fsync); files are deleted and handles closed only by finalizers or Open.",
 		"directory contents after every crash chain; 'delayed but not prevented' timing under readers."},
 	"C14": {"Close is safe, idempotent and final",
-		"every LogStore/StableStore method starts with the closed check; Close swaps the flag once, then under the lock closes the trigger channel, empties the state, attaches closers, closes the meta store and wakes any writer waiting for a rotation; no call can dereference the emptied state (closed re-checked after the state is pinned / after the lock is held and rotation awaited); the rotation goroutine exits on the closed flag; nothing Close tears down is read unsynchronised.",
+		"every LogStore/StableStore method starts with the closed check; Close swaps the flag once, then under the lock closes the trigger channel, empties the state, attaches closers, closes the meta store and wakes any writer waiting for a rotation; no call can dereference the emptied state (closed re-checked after the state is pinned / after the lock is held and rotation awaited); the rotation goroutine exits on the closed flag; nothing Close tears down is read unsynchronised; Close closes no segment handle inline (only through the finalizer of the emptied state).",
 		"freedom from deadlock/panic over all interleavings in general; 'correct results' of racing calls."},
 	"C15": {"Entry-size boundaries: whatever is accepted is readable",
 		"the write path refuses (ErrTooBig, before buffering) exactly what the read paths reject, against the same constant; the large-frame second read is bounded.",
